@@ -46,11 +46,39 @@ type bndEngine struct {
 	checkWrap bool
 }
 
-const (
-	wrapBound = int64(1) << 60
-	lenCap    = int64(1) << 40
-	magBound  = int64(1) << 41
-)
+// Parameters of the wrap-freedom argument. On a 64-bit target: results within ±2^60, assuming
+// no buffer is longer than 2^40 bytes, with magnitude candidates |x| ≤ 2^41. On a 32-bit
+// target (int is 32 bits): results within ±(2^31−1) — exactly the machine range —, assuming no
+// buffer is longer than 2^28 bytes (256 MiB), with magnitude candidates |x| ≤ 2^29.
+func (e *bndEngine) is32() bool { return e.w.GOARCH == "386" || e.w.GOARCH == "arm" }
+
+func (e *bndEngine) wrapBound() int64 {
+	if e.is32() {
+		return int64(1)<<31 - 1
+	}
+	return int64(1) << 60
+}
+
+func (e *bndEngine) lenCap() int64 {
+	if e.is32() {
+		return int64(1) << 28
+	}
+	return int64(1) << 40
+}
+
+func (e *bndEngine) magBound() int64 {
+	if e.is32() {
+		return int64(1) << 29
+	}
+	return int64(1) << 41
+}
+
+func (e *bndEngine) wrapNames() (res, buf, mag string) {
+	if e.is32() {
+		return "2^31−1", "2^28", "2^29"
+	}
+	return "2^60", "2^40", "2^41"
+}
 
 type callSite struct {
 	ctx  *fnCtx
@@ -563,7 +591,7 @@ func (c *fnCtx) fieldLen(fi int, ver string) (Lin, bool) {
 	a := linAtom(name)
 	c.addDef(leq(linConst(0), a, "len ≥ 0"))
 	if c.e.checkWrap {
-		c.addDef(leq(a, linConst(lenCap), "assumption: no buffer longer than 2^40"))
+		c.addDef(leq(a, linConst(c.e.lenCap()), "assumption: no buffer longer than the cap"))
 	}
 	if val, ok := c.storeVers[fmt.Sprintf("%d@%s", fi, ver)]; ok {
 		k := "eq:" + name
